@@ -199,6 +199,8 @@ def make_history(rng, files):
         base = G.structured_program(rng)
     else:
         base = G.mixed(rng)
+    if rng.random() < .12:
+        base = ''.join(G.inflate(G.split_keep(base), rng))
     hist = [base]
     cur = G.split_keep(base)
     orig = cur
